@@ -230,7 +230,7 @@ PROPS['C20'] = dict(
     theorems=['C20_rejected_is_noop', 'C20_ante_panic_charges_block_gas_only', 'C20_dropped_is_noop', 'C20_isolation', 'C20_isolation_replace', 'runItems_append',
               'C09_total', 'C09_total_no_divzero', 'C09_zero_target_keeps', 'C13_endBlock_total', 'C13_inv_block',
               'C20_no_send_on_closed', 'inv_step', 'inv_run', 'C20_original_crashes', 'C20_original_drops', 'C20_lock_needed', 'C20_index_needed',
-              'C20_filter_total', 'C20_filterLogs_total', 'C20_guard_needed', 'topicLoop_total', 'fact_filterlogs_guards', 'fact_basefee_guards', 'fact_maxgas_guard', 'fact_block_panic_sites', 'fact_consume_locks_across_send', 'fact_install_shape', 'fact_uninstall_shape', 'fact_join_indexes'],
+              'C20_filter_total', 'C20_filterLogs_total', 'C20_guard_needed', 'topicLoop_total', 'fact_filterlogs_guards', 'fact_basefee_guards', 'fact_maxgas_guard', 'fact_block_panic_sites', 'fact_consume_locks_across_send', 'fact_install_shape', 'fact_uninstall_shape', 'fact_join_indexes', 'fact_context_guarded'],
     engines=[dict(name='crash', test='TestEngineCrash', quick=250, thorough=600, thorough_seeds=3, no_model=True),
              dict(name='conc', test='TestEngineConc', quick=3, thorough=12, thorough_seeds=2, no_model=True, race_in_thorough=True),
              dict(name='logfilter', test='TestEngineLogfilter', quick=3000, thorough=200000, thorough_seeds=3)],
